@@ -453,3 +453,4 @@ def run(chk):
     rule_mode(chk)
     rule_same(chk)
     rule_default(chk)
+    common.rule_forwarding(chk, "C10", keys=[("_output", "to_file"), ("_output", "FileDestination.__call__")])
